@@ -232,6 +232,7 @@ def invariant_provenance(run, model, rule="C04.inv-prov", rule_own="C17.own-list
     sites = meta.mutation_sites(model, fi)
     ext = [(n, recv) for n, how, recv in sites if how == "extend"]
     bad = None
+    r1 = r2 = None
     heads = [n for n in flow.cfg.nodes if n.kind == "next" and any(p.kind == "iter" and flow.term(p.ast, p) == ("param", bases_p) for _, p in n.pred)]
     if len(heads) != 1:
         bad = "no loop iterates the parameter `%s` itself" % bases_p
@@ -277,7 +278,7 @@ def invariant_provenance(run, model, rule="C04.inv-prov", rule_own="C17.own-list
     gg = GuardGraph(flow)
     # decisions guarding the store, evaluated for: merged list empty / non-empty x some base has the dunder
     # region after the loops is loop-free from the last extend to the exit
-    merged = r1 if len(ext) == 2 else None
+    merged = r1 if (len(ext) == 2 and r1 is not None) else None
     start = None
     # the outermost ``if`` (not inside a loop) that lexically contains the store
     def find(stmts, in_loop):
